@@ -233,11 +233,13 @@ _T5 = {
     'Ctrl': ('props/Prop_Tie_Ctrl.v: the eight cf_* control-point helpers (peak / trough = the highest / lowest strict interior local extremum '
              'of the cycle, zero crossings = first neighbouring pair of opposite strict signs, interpolated on a 1000-point grid within 1/1998 of '
              'the linear zero), get_control_point_metrics(_aug), normalised_waveform'),
+    'Sift': ('props/Prop_Tie_Sift.v: the loops of get_next_imf / sift / mask_sift, where the stop verdicts of the stages (continue flag, '
+             'energy threshold, caps) are consumed'),
     'Util': ('props/Prop_Tie_Util.v: phase_angle, direct_quadrature, phase_from_control_points, frequency_stats (a deprecated alias of '
              'frequency_transform), est_orthogonality (symmetric, unit diagonal for non-zero columns), apply_epochs, find_extrema_locked_epochs '
              '(new list-level models with shape / range / window laws)'),
 }
-for _pid, _names in {'C05': ['Parab'], 'C06': ['Parab'], 'C18': ['Parab'], 'C12': ['Wave'], 'C15': ['Wave', 'Cyciter', 'Cycgen'], 'C19': ['Wave'],
+for _pid, _names in {'C05': ['Parab'], 'C06': ['Parab', 'Sift'], 'C18': ['Parab'], 'C12': ['Wave'], 'C15': ['Wave', 'Cyciter', 'Cycgen'], 'C19': ['Wave'],
                      'C16': ['Cyciter'], 'C14': ['Cyciter', 'Cycgen', 'Ctrl'], 'C09': ['Util']}.items():
     CLAIMED[_pid]['technique'] += ' + further TRANSLATION TIES re-checked on every run: ' + '; '.join(_T5[n] for n in _names)
 
